@@ -68,7 +68,9 @@ def shard(col, shard_i, ngrammars, ninputs, full):
             B = rng.choice([('pat', r'\)+'), ('tok', 'c'), 'eof'])
             T1, T2 = ('tok', 'x'), ('tok', 'z')
             hand = rng.choice(['none', 'override-recursive', 'lone-call'])
-            rules = [('start', [], ('choice', [('seq', [('call', 'r'), T1]), ('call', 's'), ('seq', [('call', 'r'), T2]), ('seq', [('call', 'h'), ('tok', '?')]), ('call', 'h')])),
+            rules = [('start', [], ('choice', [('seq', [('call', 'r'), T1]), ('call', 's'), ('seq', [('call', 'r'), T2]), ('seq', [('call', 'h'), ('tok', '!')]),
+                                              ('seq', [('tok', '('), ('named', False, 'inner', ('call', 'h')), ('tok', ')'), ('tok', '?')]),
+                                              ('seq', [('call', 'h'), ('tok', '?')]), ('call', 'h')])),
                      ('r', [], ('seq', [P, A])), ('s', [], ('seq', [P, B]))]
             if hand == 'override-recursive':
                 rules.append(('h', [], ('choice', [('seq', [('tok', '('), ('over', False, ('call', 'h')), ('tok', ')')]), ('named', False, 'v', ('pat', r'\w+'))])))
